@@ -734,7 +734,8 @@ theorem tame_gatherScan (g : Nat) (cs : List Child) (i : Nat) (p : Pool) : Tame 
 theorem tame_addGather (p : Pool) (G : Gather) (amb : Bool) (hG : G.outer = some .ok → G.children = []) :
     Tame p ({ p with gathers := p.gathers ++ [G], ambiguous := amb } : Pool) := by
   refine ⟨⟨rfl, rfl, rfl, rfl, rfl, rfl, rfl, fun h => h, List.Sublist.refl _, fun _ tk' h => ⟨tk', h, rfl⟩, rfl, ?_,
-    fun h => h.of_eq rfl rfl, rfl⟩, Nat.le_refl _, fun _ r' h => Or.inl ⟨r', h, MSigLe.refl r'⟩, fun _ h => h.of_eq rfl rfl⟩
+    fun h => h.of_eq rfl rfl, rfl⟩, Nat.le_refl _, fun _ r' h => Or.inl ⟨r', h, MSigLe.refl r'⟩, fun _ h => h.of_eq rfl rfl,
+    Mono.of_eq _ _ rfl rfl rfl⟩
   intro h
   refine ⟨?_, ?_⟩
   · intro g G' hg hok t ht
